@@ -11,6 +11,7 @@ import sympy as sp
 from .lie_common import lib_call
 
 SHARDS = {"quick": 16, "thorough": 16}
+REQUIRED_REACH = ['_sympy_parser', 'casadi_to_sympy']
 RULE = ("random expression trees (depth <= 5 quick / 6 thorough): SymPy side over Add, Mul, Integer, Rational (+-), Float (non-integer, "
         "negative, integer-valued), Pow with integer / 1/2 / rational / float exponents on positive bases, Symbol, sin, cos, tan, atan, "
         "Matrix, user functions through f_dict with 1-3 entries, cse=True; CasADi side over every opcode casadi_to_sympy maps "
